@@ -34,11 +34,13 @@ var c12BoundsTable = map[string]string{}
 func runC12(c *an.Ctx) {
 	c.Explanation = "A8 recursion + A9 panics/assertions + a bounds prover, over vm/neovm, vm/neovm/types, smartcontract/service/neovm and the native contracts: (1) every recursive component is justified by a growing depth/count bound, by the cycle detector (shared with C14), or as structural recursion over a tree that only a depth-bounded decoder can build; " +
 		"(2) every explicit panic is either proven unreachable by enumerating the finite domain of the switched value (all 256 opcodes; all constants ever stored into VmValue.valType) against the branch conditions on the SSA CFG, or is listed with a reason; a new explicit panic is a violation; (3) every unchecked type assertion on an execution-engine result is justified by the concrete engine's return statements (every success return yields that dynamic type, or the assertion is guarded by a nil test); " +
-		"(4) every slice/index expression whose bound derives from a call result (a value popped from the VM stack or decoded from input) is proven in range by the comparisons that dominate it, where a sum of two signed values needs both addends bounded (no int64 wrap-around); integer division by a non-constant on the VM path is guarded by a zero test. " +
+		"(4) every slice/index expression whose bound derives from a call result (a value popped from the VM stack or decoded from input) is proven in range by the comparisons that dominate it, where a sum of two signed values needs both addends bounded (no int64 wrap-around); integer division by a non-constant on the VM path is guarded by a zero test; (5) in the argument decoders of the native contracts and VM services an integer decoded from the argument bytes is bounded before it sizes an allocation, a slice or an index (make with an attacker-chosen capacity panics). " +
 		"Decides these crash causes only; implicit run-time panics in general (nil dereference, other index expressions), allocation volume and termination of loops are not decided."
 	if !controlGuard(c) {
 		return
 	}
+	// (5) sizes decoded from contract arguments
+	decodedSizesRule(c)
 	// (1) recursion
 	valueRecursionRules(c, "recursion")
 	scope := c.P.RepoSrcFuncs("smartcontract/service/neovm", "smartcontract/service/native", "smartcontract/service/wasmvm")
